@@ -90,6 +90,13 @@ META = {
               "identical calls of every entry point with every other entry point run on single-item / all-1 shapes and their results "
               "overwritten in between (bit for bit); user f / g that return their argument or a view of it; batches of 2^17+5 (quick) and "
               "2^18+1, 2^18+37, 2^20+1 (thorough) with the last n mod 2^k items checked; nearly-identity / nearly-zero matrices",
+    "pass7": "every value returned by the real code is tested for finiteness before it goes to the driver or into a tolerance comparison "
+             "(`finite`: a NaN / inf is a failing input `non-finite result`, never a harness crash); every failure-deciding comparison has the "
+             "form `not (err <= tol)`; det/ties (28 corpus + generated): 14 kinds of exact ties on exactly representable data (zero state / "
+             "input / constants / matrices, A x = -B u, A x + B u = ±c1, x = u, A = B, constant entries, equal max-norms, signed "
+             "permutations, equal output components) through an LTI step (with / without constants, fed back), bmv, bvv, bvmv and the NLS "
+             "linearisation; affine-exact oracle: for every component of f / g that is affine in state and input the code's A x' + B u' + c "
+             "is compared with f(x', u', t*) far from the reference point (theorems nls_affine_exact, nls_affine_exact_obs)",
     "partial": ["IEEE rounding is not modelled: the float code is compared with the exact model at 64·eps·(sum of "
                 "absolute term magnitudes)",
                 "the explicit second-order constant (Fn.bnd, nls_second_order_explicit) is an upper bound, not the least constant",
@@ -240,6 +247,34 @@ def tree_mp(t, env):
     return tree_mp(t[1], env) ** t[2]
 
 
+def tree_free(t, nv):
+    """no state / input variable (index < nv) occurs: a coefficient (the model's Fn.freeOf)"""
+    op = t[0]
+    if op == "C":
+        return True
+    if op == "V":
+        return t[1] >= nv
+    if op in "+-*":
+        return tree_free(t[1], nv) and tree_free(t[2], nv)
+    return tree_free(t[1], nv)
+
+
+def tree_affine(t, nv):
+    """affine in the variables below nv with time-dependent coefficients (the model's Fn.affineIn)"""
+    op = t[0]
+    if op in "CV":
+        return True
+    if op in "+-":
+        return tree_affine(t[1], nv) and tree_affine(t[2], nv)
+    if op == "*":
+        return (tree_free(t[1], nv) and tree_affine(t[2], nv)) or (tree_affine(t[1], nv) and tree_free(t[2], nv))
+    if op == "~":
+        return tree_affine(t[1], nv)
+    if op in "SK":
+        return tree_free(t[1], nv)
+    return tree_free(t[1], nv) or t[2] == 0
+
+
 def tree_mag(t, ea, nv):
     """(m, [dm_v]): m bounds |value| plus propagated absolute error scale, dm_v the same for d/dv — the
     float error of evaluating the tree (its reverse-mode derivative) is <= c·u·m (c·u·dm_v), c ~ #ops"""
@@ -380,6 +415,26 @@ def guarded(ctx, case, fn, *args):
         return None
 
 
+def finite(ctx, case, what, *vals):
+    """lesson 38: every value the real code returns for a finite valid input is tested for finiteness BEFORE it goes to the
+    Lean driver (`to_wire` refuses NaN / inf) or into a tolerance comparison; nothing in the property (linear maps, smooth
+    user functions on data far from overflow) specifies a non-finite result. Records the failing input and returns False."""
+    for k_, v in enumerate(vals):
+        if isinstance(v, (tuple, list)):
+            if not finite(ctx, case, f"{what} [{k_}]", *v):
+                return False
+            continue
+        if not isinstance(v, torch.Tensor):
+            v = torch.as_tensor(v)
+        if (v.is_floating_point() or v.is_complex()) and not bool(torch.isfinite(v).all()):
+            flat = v.detach().reshape(-1)
+            j = int((~torch.isfinite(flat)).nonzero()[0])
+            ctx.fail(case, f"non-finite result: {what}: value {k_} (shape {tuple(v.shape)}) has entry {flat[j].item()!r} at flat index {j}; all operands are finite "
+                           f"and the exact result is far from overflow")
+            return False
+    return True
+
+
 def pub(case):
     """the replayable part of a case (private working keys removed)"""
     return {k: v for k, v in case.items() if not k.startswith("_")}
@@ -514,7 +569,8 @@ def run_clock_impl(ctx: Ctx, case):
             return None
         try:
             if ev == "call":
-                sys_(x, u)
+                if not finite(ctx, {**pub(case), "at": i}, f"call {i} of the {kind} system on x={x.tolist()} u={u.tolist()}", sys_(x, u)):
+                    return None
                 expect = before + 1
             elif ev == "xraise":
                 try:
@@ -526,9 +582,9 @@ def run_clock_impl(ctx: Ctx, case):
                     ctx.notes.append("xraise did not raise")
             elif ev == "fwd":
                 if e["which"] == "forward":
-                    sys_.forward(x, u)
+                    o_ = sys_.forward(x, u)
                 elif kind == "nls":
-                    getattr(sys_, e["which"])(x, u, sys_.systime)
+                    o_ = getattr(sys_, e["which"])(x, u, sys_.systime)
                 else:
                     getattr(sys_, e["which"])(x, u)
             elif ev == "reset":
@@ -766,8 +822,10 @@ def run_multi_impl(ctx: Ctx, case):
                 expect[sidx] += 1
                 # the equations at the system's own time (the NLS is time dependent)
                 want = {"nls": (1.0 + clocks[sidx] % 1000, 1.25), "nls2": (1.0 + clocks[sidx] % 1000, 2.75), "sysu": (4.25, 1.75)}.get(kind, (3.25, 1.5))
+                if not finite(ctx, {**pub(case), "at": i}, f"call {i} on system {sidx} ({kind}) with x=[1.5] u=[0.25]", out):
+                    return None
                 got = (float(out[0].reshape(-1)[0]), float(out[1].reshape(-1)[0]))
-                if abs(got[0] - want[0]) > 1e-5 or abs(got[1] - want[1]) > 1e-6:
+                if not (abs(got[0] - want[0]) <= 1e-5 and abs(got[1] - want[1]) <= 1e-6):
                     ctx.fail({**pub(case), "at": i}, f"multi-eq: call {i} on system {sidx} ({kind}) at its time {clocks[sidx]} returned {got}, its equations give {want}")
                     return None
             elif ev == "copy":
@@ -1324,8 +1382,7 @@ def _check_lin(ctx: Ctx, case):
                         if xn.untyped_storage().data_ptr() == y.untyped_storage().data_ptr():
                             ctx.fail({**pub(case), "at": i}, "alias: next state and observation share memory")
                             raise _Abort()
-                    if not (bool(torch.isfinite(xn).all()) and bool(torch.isfinite(y).all())):
-                        ctx.fail({**pub(case), "at": i}, f"lin-eq: non-finite output at clock {clock} although the exact result is far from overflow")
+                    if not finite(ctx, {**pub(case), "at": i}, f"event {i}: call of the {case['sys']} system at clock {clock}", xn, y):
                         raise _Abort()
                     for idx in idxs:
                         def it(X, b):
@@ -1391,6 +1448,8 @@ def _check_lin(ctx: Ctx, case):
                             ctx.fail({**pub(case), "at": i}, f"lin-raises: the copy's call at its time {clone_clock} (slice {slc}) {'raised ' + type(rc_).__name__ if rc_ else 'returned instead of raising'}")
                             raise _Abort()
                         if rc_ is None:
+                            if not finite(ctx, {**pub(case), "at": i}, f"event {i}: call of the copy of the system at its clock {clone_clock}", outc):
+                                raise _Abort()
                             if not lin_exact(ctx, case, i, clone_tens, slc, xc, uc, outc[0], outc[1], idxs, eps, "copy of the system"):
                                 raise _Abort()
                             clone_clock += 1
@@ -1548,7 +1607,7 @@ def run_lin(ctx: Ctx, cases):
                 continue
             want = [common.from_wire(t_) for t_ in toks[1:]]
             for q_, (gv, w, mg) in enumerate(zip(got, want, mags)):
-                if abs(Fraction(gv) - w) > 64 * eps * mg + 1e-300:
+                if not (abs(Fraction(gv) - w) <= 64 * eps * mg + 1e-300):
                     ctx.disagree("lin.obj", pub(case), f"object with overridden properties {sorted(case['ov'])}: output entry {q_} implementation {gv!r}, model (properties resolved) {float(w)!r}")
                     break
             continue
@@ -1576,7 +1635,7 @@ def run_lin(ctx: Ctx, cases):
                 if len(mags) != len(om):
                     continue            # the oracle already reported a shape problem for this event
                 bad = [(k_, gv, float(mv)) for k_, (gv, mv, mg) in enumerate(zip(got, om, mags))
-                       if abs(Fraction(gv) - mv) > 64 * eps * mg + 1e-300]
+                       if not (abs(Fraction(gv) - mv) <= 64 * eps * mg + 1e-300)]
                 if bad:
                     ctx.disagree("lin.value", {**pub(case), "at": i, "item": list(idx)}, f"{case['sys']}: event {i} output entry {bad[0][0]}: implementation {bad[0][1]!r} model {bad[0][2]!r}")
                     break
@@ -2067,6 +2126,8 @@ def _check_nls(ctx: Ctx, case, model_doc=None, model_alias=None, oracle_budget=N
             except Exception as ex:
                 ctx.fail({**strip(case), "at": i}, f"nls-raises: call raised {type(ex).__name__}: {str(ex)[:100]}")
                 return False
+            if not finite(ctx, {**strip(case), "at": i}, f"event {i}: call at clock {clock} with x={e['x']} u={e['u']}", f, g_):
+                return False
             got = f.double().tolist() + g_.double().tolist()
             # oracle: outputs = f(x,u,clock), g(x,u,clock) by the independent evaluator
             env = [mp.mpf(v) for v in e["x"]] + [mp.mpf(v) for v in e["u"]] + [mp.mpf(clock - T0)]
@@ -2197,6 +2258,8 @@ def _check_nls(ctx: Ctx, case, model_doc=None, model_alias=None, oracle_budget=N
                 clone_clock = e["t"]
             elif clone is not None and e["op"] == "call":
                 fc, gc = clone(torch.tensor(e["x"], dtype=dt), torch.tensor(e["u"], dtype=dt))
+                if not finite(ctx, {**strip(case), "at": i}, f"event {i}: the copy's call at its clock {clone_clock} with x={e['x']} u={e['u']}", fc, gc):
+                    raise _Abort()
                 gotc = fc.double().tolist() + gc.double().tolist()
                 envc = [mp.mpf(v) for v in e["x"]] + [mp.mpf(v) for v in e["u"]] + [mp.mpf(clone_clock - T0)]
                 eac = [abs(v) for v in e["x"]] + [abs(v) for v in e["u"]] + [abs(clone_clock - T0)]
@@ -2211,6 +2274,8 @@ def _check_nls(ctx: Ctx, case, model_doc=None, model_alias=None, oracle_budget=N
                 clone_clock += 1
             elif clone is not None and clone_ref is not None:
                 partsc = flat_lin(clone)
+                if not finite(ctx, {**strip(case), "at": i}, f"event {i}: A, B, C, D, c1, c2 of the copy (reference point {clone_ref.get('x')}, {clone_ref.get('u')})", *partsc):
+                    raise _Abort()
                 gotc = {nm: p_.double().flatten().tolist() for nm, p_ in zip(["A", "B", "C", "D", "c1", "c2"], partsc)}
                 cinfo = {**strip(case), "at": i, "site": SITE, "ref_t_mode": clone_ref["mode"], "read_clock": clone_clock, "of": "copy"}
                 ok &= nls_oracles(ctx, case, cinfo, clone, clone_ref, gotc, eps, dt, rr, True)
@@ -2283,6 +2348,8 @@ def _check_nls(ctx: Ctx, case, model_doc=None, model_alias=None, oracle_budget=N
                         ctx.fail({**strip(case), "at": i}, f"nls-shape: A,B,C,D,c1,c2 have shapes {[tuple(p_.shape) for p_ in parts]}, expected {want_shapes}")
                         ok, shapes_ok = False, False
                 names = ["A", "B", "C", "D", "c1", "c2"]
+                if have_ref and ref["ok"] and not finite(ctx, {**strip(case), "at": i}, f"event {i}: read of A, B, C, D, c1, c2 (reference point x={ref['x']} u={ref['u']} t={ref['t']})", *parts):
+                    return False
                 got = {nm: p_.double().flatten().tolist() for nm, p_ in zip(names, parts)}
                 flat_got = sum((got[nm] for nm in names), [])
                 verdict_doc = verdict_alias = None
@@ -2429,6 +2496,30 @@ def nls_oracles(ctx, case, cinfo, sys_, ref, got, eps, dt, rr, full):
                 ctx.fail(cinfo, f"affine: ({'A' if nm == 'f' else 'C'} x* + {'B' if nm == 'f' else 'D'} u* + c)[{r_}] = {float(pred[r_])!r} but {nm}(x*,u*,t*={ts})[{r_}] = {float(want[r_])!r} "
                                 f"(tol {tol:.2e}; ref set at clock {ref['clock']} mode {ref['mode']}, read at clock {cinfo['read_clock']})", known_matcher=km)
                 ok = False
+    # (2b) components that are affine in state and input (full- / partial-state observations, f = u, LTV systems written as
+    #      NLS …): the affine model is EXACT at every point, not only near the reference point (theorems nls_affine_exact,
+    #      nls_affine_exact_obs) — evaluated far away (distance up to 8 per coordinate)
+    for far in (8.0, -5.5):
+        dfar = [far * rr.uniform(0.25, 1) * rr.choice([-1, 1]) for _ in range(nx + nu)]
+        xp = torch.tensor([ref["x"][j] + dfar[j] for j in range(nx)], dtype=torch.float64)
+        up = torch.tensor([ref["u"][j] + dfar[nx + j] for j in range(nu)], dtype=torch.float64)
+        envf = [mp.mpf(float(v)) for v in xp.tolist()] + [mp.mpf(float(v)) for v in up.tolist()] + [mp.mpf(ts)]
+        eaf = [abs(ref["x"][j]) + abs(dfar[j]) for j in range(nx)] + [abs(ref["u"][j]) + abs(dfar[nx + j]) for j in range(nu)] + [abs(ts)]
+        for nm, M1, M2, cc, trees in (("f", A, B, c1, case["fs"]), ("g", C, D, c2, case["gs"])):
+            pred = M1 @ xp + M2 @ up + cc
+            for r_, tr in enumerate(trees):
+                if not tree_affine(tr, nx + nu):
+                    continue
+                ctx.count("nls.affine_exact")
+                want = tree_mp(tr, envf)
+                mg, dm = tree_mag(tr, eaf, nv)
+                scale = mg + sum(dm[j] * eaf[j] for j in range(nx + nu)) + float((M1[r_].abs() * xp.abs()).sum() + (M2[r_].abs() * up.abs()).sum()) + abs(float(cc[r_]))
+                tol = 64 * eps * max(1.0, tree_size(tr) / 24.0) * scale * 4 + floor_(case["dtype"], scale, 4 * tree_size(tr))
+                if not (abs(mp.mpf(float(pred[r_])) - want) <= tol):
+                    ctx.fail(cinfo, f"affine-exact: component {r_} of {nm} is affine in state and input, but ({'A' if nm == 'f' else 'C'} x' + {'B' if nm == 'f' else 'D'} u' + c)[{r_}] = "
+                                    f"{float(pred[r_])!r} at x'={xp.tolist()} u'={up.tolist()} (reference point x*={ref['x']} u*={ref['u']} t*={ts}) while {nm}(x',u',t*)[{r_}] = {float(want)!r} "
+                                    f"(tol {tol:.2e}; ref set at clock {ref['clock']} mode {ref['mode']}, read at clock {cinfo['read_clock']})", known_matcher=km)
+                    ok = False
     # (3) second-order error: |f(p*+h d) - affine(p*+h d)| <= K with the explicit constant of the Lean model
     #     (`Fn.bnd`, theorem nls_second_order_explicit; evaluated by the driver op c15.bnd, checked in flush_second_order)
     if full:
@@ -2609,6 +2700,8 @@ def check_ltib(ctx: Ctx, case):
     except Exception as ex:
         ctx.fail(pub(case), f"lin-raises: batched LTI call raised {type(ex).__name__}: {str(ex)[:100]}")
         return False
+    if not finite(ctx, pub(case), f"batched LTI call (batch shapes A {case['b1']} B {case['b2']} x {case['bx']} u {case['bu']})", xn, y):
+        return False
     bs = torch.broadcast_shapes(*[tuple(b_) for b_ in ([case["b1"], case["b2"], case["bx"], case["bu"]] + ([case["b3"]] if case["hasc"] else []))])
     if tuple(xn.shape) != tuple(bs) + (n,) or not torch.equal(xn, y):
         ctx.fail(pub(case), f"lin-shape: batched LTI call returned shape {tuple(xn.shape)} (expected {tuple(bs) + (n,)}) or observation != transition for C=A, D=B, c2=c1")
@@ -2729,6 +2822,9 @@ def check_bmv(ctx: Ctx, case):
     if type(y) is not torch.Tensor:
         ctx.fail(pub(case), f"bmv-type: {fn} returned {type(y).__name__}")
         return False
+    if not finite(ctx, pub(case), f"{fn} on operands of shapes {[tuple(a_.shape) for a_ in raw]} (mode {mode}; then under {case.get('modes', [])})", y, *[y2_ for _, y2_ in case.get("_y2", [])]):
+        case.pop("_y2", None)
+        return False
     bs = torch.broadcast_shapes(*[tuple(a.shape[:a.ndim - (2 if ((fn == "bmv" and k_ == 0) or (fn == "bvmv" and k_ == 1)) else 1)]) for k_, a in enumerate(raw)])
     core = {"bmv": (n,), "bvv": (n, m), "bvmv": ()}[fn]
     want_shape = tuple(bs) + core
@@ -2834,13 +2930,14 @@ def run_bmv(ctx: Ctx, cases):
 # ============================================================================= stream: det (defaults / dtypes / interleaving)
 
 DET_DTYPES = ["int64", "int32", "int16", "int8", "uint8", "float16", "bfloat16", "float32", "float64", "complex64", "complex128"]
+TIES = ["allzero", "x0", "u0", "c0", "cancel", "z_eq_c1", "z_eq_negc1", "x_eq_u", "A_eq_B", "const_entries", "samenorm", "zero_matrix", "signperm", "equal_outputs"]
 JAC_DEFAULT = {"vectorize": True, "strategy": "reverse-mode"}       # documented in the NLS class (set by NLS.__init__)
 
 
 def gen_det_case(seed, quick):
     rng = random.Random(seed)
-    sub = rng.choice(["defaults", "dtype", "dtype", "interleave"])
-    return {"kind": "det", "seed": seed, "sub": sub, "dseed": rng.randrange(1 << 30), "dtype": rng.choice(DET_DTYPES if sub == "dtype" else ["float32", "float64"]),
+    sub = rng.choice(["defaults", "dtype", "dtype", "interleave", "ties", "ties"])
+    return {"kind": "det", "seed": seed, "sub": sub, "tie": rng.choice(TIES), "dseed": rng.randrange(1 << 30), "dtype": rng.choice(DET_DTYPES if sub == "dtype" else ["float32", "float64"]),
             "n": rng.choice([1, 2, 3]), "m": rng.choice([1, 2, 3]), "p": rng.choice([1, 2, 3]), "batch": rng.choice([[], [], [1], [3], [2, 2], [1, 1]]),
             "nobj": rng.choice([2, 3, 4]), "nops": rng.randint(8, 20), "matbatched": rng.random() < 0.4}
 
@@ -2931,6 +3028,8 @@ def check_defaults(ctx: Ctx, case):
             u = [rr.randint(-3, 3) for _ in range(nu_)]
             xn, y = o(torch.tensor(x, dtype=torch.float64), torch.tensor(u, dtype=torch.float64))
             t_ = ob["t"]
+            if not finite(ctx, {**pub(case), "at": step}, f"operation {step}: call of object {j} ({ob['k']} built with defaults, clock {t_}) with x={x} u={u}", xn, y):
+                raise _Abort()
             if ob["k"] == "nls":
                 ex = ([Fraction(x[0], 2) + u[0] + t_ % 1000], [Fraction(x[0] - u[0])])
                 ob["last"] = (x, u)
@@ -2971,7 +3070,10 @@ def check_defaults(ctx: Ctx, case):
             if not ob["ref"]:
                 continue
             (x, u), tr = ob["ref"]
-            got = [o.A.tolist(), o.B.tolist(), o.C.tolist(), o.D.tolist(), o.c1.tolist(), o.c2.tolist()]
+            parts_ = [o.A, o.B, o.C, o.D, o.c1, o.c2]
+            if not finite(ctx, {**pub(case), "at": step}, f"operation {step}: read of A, B, C, D, c1, c2 of object {j} (reference point x={x} u={u} t={tr})", *parts_):
+                raise _Abort()
+            got = [p_.tolist() for p_ in parts_]
             ex = [[[0.5]], [[1.0]], [[1.0]], [[-1.0]], [float(tr % 1000)], [0.0]]
             if got != ex:
                 ctx.fail({**pub(case), "at": step}, f"defaults-lin: operation {step}: object {j} (NLS f = x/2 + u + t, g = x - u, reference point x={x} u={u} t={tr}, "
@@ -3021,6 +3123,8 @@ def check_dtype(ctx: Ctx, case):
         if not isinstance(out, torch.Tensor) or out.dtype != tdt:
             ctx.fail(pub(case), f"dtype-result: {name} on {dtype} operands returns {type(out).__name__} of dtype {getattr(out, 'dtype', None)}; the result of the "
                                 f"documented sum of products of {dtype} values has dtype {dtype}")
+            return
+        if not finite(ctx, pub(case), f"{name} on {dtype} operands (small integers), batch {batch}", out):
             return
         if list(out.shape) != batch + core:
             ctx.fail(pub(case), f"dtype-shape: {name} on {dtype} operands, batch {batch}: result shape {list(out.shape)}, expected {batch + core}")
@@ -3131,6 +3235,8 @@ def check_interleave(ctx: Ctx, case):
 
     for name, fn in ops.items():
         first = fn().clone()
+        if not finite(ctx, pub(case), f"{name} ({case['dtype']}, batch {batch}, n={n}) on N(0,1) operands", first):
+            return
         poison()
         second = fn()
         if first.shape != second.shape or first.dtype != second.dtype or not torch.equal(first, second):
@@ -3141,10 +3247,119 @@ def check_interleave(ctx: Ctx, case):
             return
 
 
+def check_ties(ctx: Ctx, case):
+    """lesson 38 (c): the documented maps are linear — no comparison of floating quantities decides anything — so every exact
+    tie between quantities an implementation might compare must give the plain exact result: zero states / inputs /
+    constants / matrices, A x = -B u (cancellation to exactly 0), A x + B u = c1 and = -c1 (result exactly 0), x = u,
+    A = B, all entries equal, |A x + B u|_max = |c1|_max with different vectors, signed permutation matrices, equal output
+    components. Small integers (exact in float32 / float64); oracle: python integer arithmetic; bmv / bvv / bvmv on the same data."""
+    P = pp()
+    rr = random.Random(case["dseed"])
+    dt = DT(case["dtype"])
+    n = case["n"]
+    tie = case["tie"]
+    ri = lambda lo=-3, hi=3: rr.randint(lo, hi)
+    nz = lambda: rr.choice([-3, -2, -1, 1, 2, 3])
+    A = [[ri() for _ in range(n)] for _ in range(n)]
+    B = [[ri() for _ in range(n)] for _ in range(n)]
+    C = [[ri() for _ in range(n)] for _ in range(n)]
+    D = [[ri() for _ in range(n)] for _ in range(n)]
+    c1, c2 = [nz() for _ in range(n)], [nz() for _ in range(n)]
+    x, u = [nz() for _ in range(n)], [nz() for _ in range(n)]
+    mv = lambda M, v: [sum(M[i_][j_] * v[j_] for j_ in range(n)) for i_ in range(n)]
+    eye = [[int(i_ == j_) for j_ in range(n)] for i_ in range(n)]
+    if tie == "allzero":
+        x, u = [0] * n, [0] * n
+    elif tie == "x0":
+        x = [0] * n
+    elif tie == "u0":
+        u = [0] * n
+    elif tie == "c0":
+        c1, c2 = [0] * n, [0] * n
+    elif tie == "cancel":              # A x = -B u, C x = -D u
+        B, D, u = [[-v for v in row] for row in A], [[-v for v in row] for row in C], list(x)
+    elif tie == "z_eq_c1":
+        c1, c2 = [a_ + b_ for a_, b_ in zip(mv(A, x), mv(B, u))], [a_ + b_ for a_, b_ in zip(mv(C, x), mv(D, u))]
+    elif tie == "z_eq_negc1":
+        c1, c2 = [-(a_ + b_) for a_, b_ in zip(mv(A, x), mv(B, u))], [-(a_ + b_) for a_, b_ in zip(mv(C, x), mv(D, u))]
+    elif tie == "x_eq_u":
+        u = list(x)
+    elif tie == "A_eq_B":
+        B, D, C = [list(r_) for r_ in A], [list(r_) for r_ in A], [list(r_) for r_ in A]
+    elif tie == "const_entries":
+        k_ = nz()
+        A = B = C = D = [[k_] * n for _ in range(n)]
+        x, u, c1, c2 = [k_] * n, [k_] * n, [k_] * n, [k_] * n
+    elif tie == "samenorm":            # |z|_max = |c|_max, different vectors (sign / position)
+        z1, z2 = [a_ + b_ for a_, b_ in zip(mv(A, x), mv(B, u))], [a_ + b_ for a_, b_ in zip(mv(C, x), mv(D, u))]
+        c1 = [0] * n
+        c1[rr.randrange(n)] = rr.choice([-1, 1]) * max(abs(v) for v in z1)
+        c2 = [0] * n
+        c2[rr.randrange(n)] = rr.choice([-1, 1]) * max(abs(v) for v in z2)
+    elif tie == "zero_matrix":
+        A, D = [[0] * n for _ in range(n)], [[0] * n for _ in range(n)]
+    elif tie == "signperm":
+        perm = list(range(n))
+        rr.shuffle(perm)
+        A = [[(rr.choice([-1, 1]) if j_ == perm[i_] else 0) for j_ in range(n)] for i_ in range(n)]
+        C, B, D = [list(r_) for r_ in eye], [[0] * n for _ in range(n)], [[0] * n for _ in range(n)]
+    elif tie == "equal_outputs":       # all rows equal: every output component ties with every other
+        A, B, C, D = [list(A[0])] * n, [list(B[0])] * n, [list(C[0])] * n, [list(D[0])] * n
+        c1, c2 = [c1[0]] * n, [c2[0]] * n
+    T_ = lambda v: torch.tensor(v, dtype=torch.float64).to(dt)
+    ctx.count("det.ties." + tie)
+    data = f"A={A} B={B} C={C} D={D} c1={c1} c2={c2} x={x} u={u}"
+
+    def cmp(name, out, exp):
+        if not isinstance(out, torch.Tensor) or not finite(ctx, pub(case), f"{name} on the tie `{tie}` ({data})", out):
+            return False
+        got = out.double().reshape(-1).tolist()
+        flat = [float(v) for v in (sum(exp, []) if exp and isinstance(exp[0], list) else exp)]
+        if len(got) != len(flat) or not all(g_ == e_ for g_, e_ in zip(got, flat)):
+            ctx.fail(pub(case), f"tie: {name} on the exact tie `{tie}` ({case['dtype']}; {data}) returns {got}, exact value {flat}")
+            return False
+        return True
+    for use_c in (True, False):
+        sys_ = P.module.LTI(T_(A), T_(B), T_(C), T_(D), T_(c1), T_(c2)) if use_c else P.module.LTI(T_(A), T_(B), T_(C), T_(D))
+        xn, y = sys_(T_(x), T_(u))
+        ex1 = [a_ + b_ + (c_ if use_c else 0) for a_, b_, c_ in zip(mv(A, x), mv(B, u), c1)]
+        ex2 = [a_ + b_ + (c_ if use_c else 0) for a_, b_, c_ in zip(mv(C, x), mv(D, u), c2)]
+        if not (cmp(f"LTI step x' ({'with' if use_c else 'without'} c1, c2)", xn, ex1) and cmp(f"LTI step y ({'with' if use_c else 'without'} c1, c2)", y, ex2)):
+            return
+        # two steps fed back (the second state is the first result: ties produced by the code's own output)
+        xn2, _ = sys_(xn, T_(u))
+        if not cmp("second LTI step on the fed-back state", xn2, [a_ + b_ + (c_ if use_c else 0) for a_, b_, c_ in zip(mv(A, ex1), mv(B, u), c1)]):
+            return
+    if not cmp("bmv(A, x)", P.bmv(T_(A), T_(x)), mv(A, x)):
+        return
+    if not cmp("bvv(x, u)", P.bvv(T_(x), T_(u)), [[a_ * b_ for b_ in u] for a_ in x]):
+        return
+    if not cmp("bvmv(x, A, u)", P.bvmv(T_(x), T_(A), T_(u)), [sum(x[i_] * A[i_][j_] * u[j_] for i_ in range(n) for j_ in range(n))]):
+        return
+    xt = T_(x)
+    if not cmp("bvmv(x, A, x) with the same tensor twice", P.bvmv(xt, T_(A), xt), [sum(x[i_] * A[i_][j_] * x[j_] for i_ in range(n) for j_ in range(n))]):
+        return
+    # the linearisation of an NLS at a reference point made of ties (x* = u*, or 0) with the reference time = the clock
+    Simple = simple_nls_class(P)
+    o = Simple()
+    v0 = float(x[0])
+    uu = v0 if tie in ("x_eq_u", "const_entries", "cancel") else float(u[0])
+    o(T_([v0]), T_([uu]))
+    o.set_refpoint()
+    exl = [[0.5], [1.0], [1.0], [-1.0], [1.0], [0.0]]          # f = x/2 + u + t at t = 1 (set after one call), g = x - u
+    for nm_, got_, e_ in zip(["A", "B", "C", "D", "c1", "c2"], [o.A, o.B, o.C, o.D, o.c1, o.c2], exl):
+        if not cmp(f"NLS (f = x/2 + u + t, g = x - u) {nm_} at the reference point x*={v0} u*={uu} t*=clock=1", got_, e_):
+            return
+
+
+DET_CORPUS += [{"kind": "det", "corpus": 19 + k_, "seed": 9519 + k_, "sub": "ties", "tie": tie_, "dseed": 70 + k_, "dtype": "float64" if k_ % 2 == 0 else "float32", "n": 2 + k_ % 2, "m": 2, "p": 2,
+                "batch": [], "nobj": 0, "nops": 0, "matbatched": False} for k_, tie_ in enumerate(TIES + TIES[::-1])]
+
+
 def run_det(ctx: Ctx, cases):
     for case in cases:
-        fn = {"defaults": check_defaults, "dtype": check_dtype, "interleave": check_interleave}[case["sub"]]
-        ctx.note_case(("det", case["sub"], case["dtype"], case["n"], case["m"], case["p"], tuple(case["batch"]), case["nobj"], case["nops"], case["matbatched"], case["dseed"]), True)
+        fn = {"defaults": check_defaults, "dtype": check_dtype, "interleave": check_interleave, "ties": check_ties}[case["sub"]]
+        ctx.note_case(("det", case["sub"], case.get("tie"), case["dtype"], case["n"], case["m"], case["p"], tuple(case["batch"]), case["nobj"], case["nops"], case["matbatched"], case["dseed"]), True)
         guarded(ctx, case, fn)
 
 
@@ -3253,7 +3468,7 @@ def check_big(ctx: Ctx, case):
             want, _ = frac_affine(pick(A), pick(B), pick(c), its[0], its[1])
         got = yf[i_].double().reshape(-1).tolist()
         for q_, (w, gv) in enumerate(zip(want, got)):
-            if abs(Fraction(gv) - w) > 64 * eps * (abs(float(w)) + 64.0):
+            if not (abs(Fraction(gv) - w) <= 64 * eps * (abs(float(w)) + 64.0)):
                 ctx.fail({**pub(case), "item": i_}, f"big-eq: item {i_} of {N} ({fn}), entry {q_} = {gv!r}, exact value {float(w)!r}")
                 ok = False
     return ok
@@ -3433,6 +3648,13 @@ NLS_CORPUS += [_pt(13, 2, 1, [("+", ("S", _X0), ("V", 2)), ("*", _X1, ("V", 3))]
                _pt(15, 1, 1, [_X0], [_X0], {"f": "state", "g": "state"}, "float32"),
                _pt(16, 3, 1, [("*", _X0, _X1), ("K", ("V", 2)), ("+", ("V", 3), ("V", 4))], [("V", 3)], {"g": "input"}),
                _pt(17, 2, 1, [("-", _X1, ("V", 2)), ("P", _X0, 2)], [_X0, _X1], {"g": "state"}, "float32")]
+# an LTV system written as an NLS (time-dependent coefficients, affine in state and input): the linearisation is the system
+# itself — exact far from the reference point, the same matrices at every reference state (nls_affine_exact,
+# nls_affine_jacobian_constant); one non-affine component next to them
+_T3 = ("V", 3)
+NLS_CORPUS += [_pt(18, 2, 1, [("+", ("+", ("*", _T3, _X0), ("*", ("C", False, 2, 1), ("V", 2))), ("K", _T3)), ("+", ("-", _X1, ("*", ("C", False, 1, 2), _X0)), ("*", ("S", _T3), ("V", 2)))],
+                   [("+", _X0, _X1), ("*", ("P", _T3, 2), ("V", 2)), ("*", _X0, ("V", 2))], {}),
+               _pt(19, 1, 1, [("-", ("*", ("C", True, 3, 4), _X0), ("~", ("V", 1)))], [("*", ("K", ("V", 2)), _X0), ("C", False, 5, 2)], {}, "float32")]
 # a deep copy taken after set_refpoint: copy and original stepped / reset in turn; both keep their own time in f, g and both
 # keep the reference point
 NLS_CORPUS.append(_nls(6, 1, 1, [("+", ("*", _X0, ("V", 2)), ("V", 1))], [("*", _X0, ("V", 2))],
